@@ -30,7 +30,8 @@ TieBroken = getattr(_main, "TieBroken", _runner.TieBroken)
 Infra = getattr(_main, "Infra", _runner.Infra)
 
 ID = "C11"
-LEAN_MODULES = ["PyYetiVerif.Props.C11", "PyYetiVerif.Audit.C11"]
+LEAN_MODULES = ["PyYetiVerif.Props.C11", "PyYetiVerif.Props.C11b", "PyYetiVerif.Props.C11c", "PyYetiVerif.Props.C11d",
+                "PyYetiVerif.Props.C11e", "PyYetiVerif.Audit.C11"]
 AUDIT_FILE = "PyYetiVerif/Audit/C11.lean"
 THEOREMS = [
     "PyYetiVerif.C11." + n
@@ -40,88 +41,119 @@ THEOREMS = [
         "op2_int_roundtrip op2_key_roundtrip op2_header_roundtrip op2_nt_roundtrip op2_matrix_roundtrip "
         "op2_partition_irrelevant op2_cutoff_irrelevant op2_skip_positions op2_skip_record op2_table_roundtrip "
         "op2_open_detects op2_dir_matches_read op2_roundtrip op2_skip_positions_general op2_skip_record_general "
-        "op2_goto_next"
+        "op2_goto_next "
+        # Props/C11b: the binary OUTPUT4 reader, every variant
+        "op4_variant_file_roundtrip skip_positions_variants dir_matches_load_variants namelist_test_exact "
+        "named_subset_is_filter_binary op4_cutoff_paths_agree op4_cutoff_irrelevant_enc op4_cutoff_irrelevant "
+        "op4_variant_dense_matrix mem_puts_iff dct_keeps_last namelist_is_filter "
+        # Props/C11c: ASCII OUTPUT4, on every text the reader accepts
+        "skip_positions_ascii dir_is_iterated_skip dir_matches_load_ascii named_subset_is_filter_ascii "
+        "dir_matches_load_ascii_written "
+        # Props/C11d: rdop2record(form, N), rdop2tabheaders with short pieces
+        "rdRecord_form_consistent rdRecord_form_consistent_partial smallItems_trivial uint64_struct_path_counterexample "
+        "rdRecord_N_irrelevant op2_tabheaders_any_pieces op2_tabheader_prefix "
+        # Props/C11e: rdop2mats(names, which)
+        "op2_name_test_exact op2_has_match_any op2_named_subset_is_filter op2_which_indexing op2_which_occurrence"
     ).split()
 ]
 TRUSTED = [
     "correspondence harness harness/props/c11.py (exact comparison of decoded content with the encoded logical content; "
-    "exact comparison of the Lean reader model's dump with what pyYeti's readers return / raise)",
-    "Model/Op2Read.lean is a hand transcription of op2.py (no translator): its agreement with the code is what the rd2 "
-    "streams check on generated files, on the 31 sample files of pyyeti/tests written by Nastran and on truncated / "
-    "mis-announced files; the file position is modelled as the list of bytes still ahead (tell = total - remaining; a "
-    "seek beyond the end is always followed by a _getkey that raises, argued in the model's header, not proved)",
+    "exact comparison of the Lean reader models' dumps with what pyYeti's readers return / raise)",
+    "Model/Op2Read.lean, Model/Op2ReadForms.lean (op2.py) and Model/Op4VariantsRead.lean, Model/Op4VariantsAscii.lean (op4.py) are "
+    "hand transcriptions (no translator; the literals 65536 / 3000 / 16 come from Generated/Op4Consts.lean): their agreement with the "
+    "code is what the rd2 / rd4 / rda / rec2 / mats2 streams check on generated files, on EVERY sample file of pyyeti/tests (31 "
+    "*.op2, 82 *.op4 written by Nastran and others; ASCII ones through C04's reader model) and on truncated / mis-announced / "
+    "ill-formed files; the file position is modelled as the list of bytes still ahead (tell = total - remaining; a seek beyond the "
+    "end is always followed by a read that raises, argued in the models' headers, not proved)",
     "the record grammar of OUTPUT2 is the one pyYeti's reader defines (no Nastran specification offline); OUTPUT4 "
     "variants as in the sample files of pyyeti/tests",
-    "CPython float() for the expected value of an ASCII field; numpy float32 -> float64 conversion; little-endian host",
+    "CPython float() for the expected value of an ASCII field; numpy float32 -> float64 conversion; numpy slice assignment "
+    "(clipping, one-value broadcast) and scipy's COO constructor as modelled by assignCol / the driver; little-endian host",
 ]
 RULE = (
     "a case is one file built from a logical content: OUTPUT4 binary (byte order x 32/64-bit keys x single/double x "
-    "dense/bigmat/nonbigmat x real/complex, strings split at arbitrary places incl. adjacent and length-1 strings, "
+    "dense/bigmat/nonbigmat x real/complex, 1..7 matrices per file whose NAMES REPEAT anywhere (kaa, maa, kaa, pha, pha) in half of "
+    "the multi-matrix files, each read with every distinct name singly (string and one-element list) and a two-name list in list mode "
+    "(every occurrence, file order) and through read() (last occurrence); strings split at arbitrary places incl. adjacent and length-1 strings, "
     "zeros inside strings, negative row counts, strings on both sides of the 3000-value cut-off, row counts 65535 / "
     "65536 / 65537 with positive and negative NR), OUTPUT4 ASCII (E or D exponents, perline 1..5, widths 12..26, "
     "with/without 1P, lower case), OUTPUT2 (byte order x key width, matrix blocks single/double real/complex with split "
     "columns, strings of 2999/3000/3001 and more reals, table blocks with super-records whose pieces have 2999/3000/"
-    "3001/5000 keys in first and later positions); each file is read in all modes and listed. Reader-model streams "
-    "(driver command rd2 = Model/Op2Read.lean on the raw bytes): every generated OUTPUT2 file (model = content = "
-    "pyYeti), every *.op2 under pyyeti/tests (model = pyYeti: dblist, goto_next, every matrix, every table record, "
-    "rdop2mats), malformed files (truncation at random positions and at block boundaries, wrong first word, the other "
-    "key width announced, contents that violate the encoder's well-formedness: strings that do not fit, row 0, more "
-    "columns than the trailer says, table pieces with fewer than three keys): model and pyYeti must return the same or "
-    "raise the same exception class; non-trivial = some column has at least two strings or some record is split, every "
-    "rd2 case; distinct by the logical content and variant / by the bytes"
+    "3001/5000 keys in first and later positions); each file is read in all modes and listed. Reader-model streams: rd2 "
+    "(Model/Op2Read.lean) as before; rd4 (Model/Op4VariantsRead.lean): every generated binary OUTPUT4 file (model = content, three "
+    "sparse modes + dir), every binary *.op4 under pyyeti/tests (model = pyYeti), name lists (a name, a proper prefix of a name, an "
+    "upper-case name, unknown names, several names; list and dict mode), other values of _rowsCutoff (0, 1, 2, 7, 2999, 3001, 1e9) on "
+    "both sides, truncated files and contents violating one well-formedness hypothesis (string too long, one value beyond the "
+    "column, odd complex count) - same result or same exception class; ASCII: every ASCII *.op4 under pyyeti/tests and the "
+    "generated variant files through C04's ASCII reader model (three modes + dir), the name-list loop (rda); rec2 "
+    "(Model/Op2ReadForms.lean): rdop2record with every form x N in {0, count, count-1, count+2, 1} x cut-offs at record starts and "
+    "at the end-of-table key, incl. pieces whose byte length is not a multiple of the item width; mats2: rdop2mats with names "
+    "(plain, lower case, trailing *, '*', an empty pattern, unknown) x which in {-1, 0, 1, -2, 5, 'all'} on files with repeated "
+    "names; non-trivial = some column has at least two strings or some record is split, every reader-model case; distinct by the "
+    "logical content and variant / by the bytes and the call"
 )
 ASSUMPTIONS = [
     "strings of one column do not overlap (adjacent is allowed) in the generated cases (the theorems allow overlap: "
-    "IsPartition); values are finite and not -0.0",
-    "table record pieces have at least three keys (rdop2tabheaders reads a 3-key header from every piece) - explicit "
-    "hypothesis of op2_table_roundtrip / BlockOk; fewer keys are exercised in the malformed-content stream",
+    "IsPartition / PutOk + covers); values are finite and not -0.0",
+    "table record pieces have at least three keys in the generated well-formed cases; fewer keys are exercised in the "
+    "malformed-content stream and covered by op2_tabheaders_any_pieces",
     "OUTPUT2 matrices have at least one column (hypothesis cols != [] of the theorems: with no column the encoder writes "
     "no column trailer and the do-while of rdop2matrix misreads the next block)",
-    "behaviour outside the reader model (Err.exotic: backward seek from a negative record length, non-ASCII header "
-    "text, allocation of >= 2^31 bytes from a garbage key) is skipped and counted, only on malformed files",
+    "behaviour outside the reader models (Err.exotic: backward seek, non-ASCII header / name text, allocation of >= 2^31 bytes from "
+    "a garbage key, a put with a negative row or column, rdop2record with N larger than the record = uninitialised memory, "
+    "rdop2mats(names=[]) = StopIteration) is skipped and counted, only on malformed files / ill-posed calls",
+    "on a truncated binary OUTPUT4 file the reader model reports struct.error (the short read) also where pyYeti raises ValueError / "
+    "IndexError a moment earlier because the put of a complex string cut to an odd number of reals fails first (the model applies the "
+    "puts after the read); counted as rd4:truncated-put-raises-before-the-short-read, both sides raise",
+    "op4 sample files with a matrix of more than 2e7 elements are read sparsely only (both sides); in the quick tier sample files "
+    "above 400 kB (op4) / 3 MB (op2) are left to the thorough tier",
 ]
 PARTIAL = (
-    "proved (Lean): OUTPUT4 column-payload round trip for any string partition and either words-per-real (word level), "
-    "partition_irrelevant; OUTPUT4 skip_positions and dir_matches_load for the variant Model/Op4.lean models in full "
-    "(32-bit keys, double precision, both byte orders, three layouts). OUTPUT2, about the transcription Model/Op2Read.lean "
-    "of op2.py's readers and the independent encoder Model/Op2.lean, for both key widths, both byte orders, single/double, "
-    "real/complex: op2_int/key/header/nt_roundtrip, op2_matrix_roundtrip (any strings that fit, both sides of the "
-    "3000-value cut-over: op2_cutoff_irrelevant), op2_partition_irrelevant (any two IsPartition cuts of the same columns "
-    "read equally), op2_table_roundtrip (records = concatenated pieces, then None; tabheaders = 3 keys + byte length of "
-    "every piece), op2_skip_positions / op2_skip_record (skippers leave what the readers leave on encoded bodies) and "
-    "op2_skip_positions_general / op2_skip_record_general (the same on EVERY byte string on which the reader succeeds and "
-    "the visited record lengths are aligned), op2_open_detects, op2_dir_matches_read (directory = entriesFrom with byte "
-    "ranges = positions; reading from a listed start returns the block and ends at the listed stop), op2_goto_next, "
-    "op2_roundtrip (rdop2mats = last block of every distinct matrix name, in order of first appearance). "
-    "NOT proved: OUTPUT4 skip_positions / dir_matches_load for 64-bit keys, single precision and ASCII, named_subset = "
-    "filter, OUTPUT4 cutoff_irrelevant (no Lean model of those readers) - established by the exact correspondence "
-    "streams (dir, namelist subset, read-vs-skip end positions, strings on both sides of the 3000-value cut-off, rows "
-    "65535..65537) only. For OUTPUT2 the step from Model/Op2Read.lean to op2.py is a checked correspondence (rd2 streams), "
-    "not a proof; rdop2mats with a name list / wildcards / which != -1, rdop2record with form != int or N > 0, and "
-    "next_db_info's bisect (modelled as 'first block starting after the position', equal for increasing starts) are not "
-    "modelled; a converse of the general skip theorem (skip succeeds => read succeeds) does not hold (shape errors) and "
-    "is not stated"
+    "proved (Lean), new in this extension: OUTPUT4 binary - Model/Op4VariantsRead.lean transcribes _op4open_read/_decode_format, "
+    "_loadop4_binary, _get_funcs, _rd_dense/_bigmat/_nonbigmat_binary, _skipop4_binary, _check_name and the listload/dir loops "
+    "generically over (byte order, key width, precision, _rowsCutoff): op4_variant_file_roundtrip (EVERY variant, every admissible "
+    "list of matrices, every partition: the reader returns exactly the encoded strings, names, header integers, chosen reader, "
+    "sparse=None resolution), op4_variant_dense_matrix (the puts rebuild the partitioned matrix for any partition), "
+    "skip_positions_variants, dir_matches_load_variants, named_subset_is_filter_binary + namelist_test_exact (exact membership), "
+    "dct_keeps_last, op4_cutoff_irrelevant (on EVERY byte string: success with one cut-off = same success with any other) + "
+    "op4_cutoff_paths_agree. OUTPUT4 ASCII (on C04's reader model, no encoder: on EVERY text on which the read succeeds): "
+    "skip_positions_ascii, dir_matches_load_ascii, named_subset_is_filter_ascii, dir_matches_load_ascii_written. OUTPUT2: "
+    "rdRecord_form_consistent (all forms decode the same payload bytes; int/uint/single/double/bytes, both cut-off paths), "
+    "rdRecord_N_irrelevant, op2_tabheaders_any_pieces (pieces of 1 or 2 keys: what is reported), op2_named_subset_is_filter + "
+    "op2_name_test_exact (exact match unless the pattern ends in *; patterns are upper-cased, names are not), op2_which_indexing, "
+    "op2_which_occurrence. STILL NOT PROVED: (1) the step from the reader models to op4.py / op2.py is a checked correspondence "
+    "(hand transcriptions), not a proof; (2) the binary OUTPUT4 skip / dir / named theorems are stated on encoded files (a general "
+    "'aligned record lengths' form as for OUTPUT2 is not stated; the cut-off theorem IS general); (3) a round trip for ASCII files "
+    "in the variants the writer never produces (D exponents, other nEw.d) is not proved - C04 proves it for the writer's files; the "
+    "variant files are read by the ASCII reader model and pyYeti with equal results (stream asc:generated); (4) finding "
+    "op2-rdop2record-uint-i64-struct-format-stays-signed: form 'uint' with 64-bit keys is proved only under SmallItems "
+    "(rdRecord_form_consistent_partial; necessity: uint64_struct_path_counterexample); (5) dict mode: the value per key is proved "
+    "(last occurrence), the key ORDER (first appearance) only checked by correspondence; the COO view (cooOfPuts, the 1j*y sign "
+    "quirk) and numpy's slice semantics on ill-formed puts (assignCol) are model definitions checked by correspondence; "
+    "(6) rdop2record on arbitrary bytes (no encoder) and rdop2mats(lower=True / header tuples / names=[]) are not treated; "
+    "next_db_info's bisect is modelled as 'first block starting after the position' (equal for increasing starts); a converse of the "
+    "general skip theorems does not hold (shape errors) and is not stated"
 )
 MANIFEST = {
-    "level_text": "Proof (Lean 4) that the word-level column decoders of the OUTPUT4 reader, generalised over the words "
-    "per real, invert the encoder for every partition of a column into strings (bigmat and nonbigmat), hence two "
-    "partitions of the same column decode equally; the OUTPUT4 binary skipper ends where the reader ends and dir lists "
-    "what load returns (32-bit keys, double precision). Proof (Lean 4) that a transcription of pyYeti's OUTPUT2 readers "
-    "(_op2open, _getkey, rdop2header, rdop2nt, rdop2matrix, skipop2matrix, rdop2record, skipop2record, rdop2tabheaders, "
-    "directory, goto_next, rdop2mats) inverts an independent encoder for every key width, byte order, precision, "
-    "real/complex, string partition and record split; that skipping leaves the bytes that reading leaves (on encoded "
-    "bodies, and on every byte string with aligned record lengths); that the directory lists the true byte ranges and "
-    "positioned reads return the listed blocks; that rdop2mats keeps the last block of a repeated name. Plus exact "
-    "correspondence: files produced by the Lean encoders are read back by pyYeti's readers to exactly the encoded "
-    "content, and the Lean reader model returns / raises exactly what pyYeti returns / raises on generated files, on "
-    "the OUTPUT2 sample files written by Nastran and on truncated or mis-announced files.",
-    "level_note": "Partial: OUTPUT4 listing/skip for the other key widths / precisions / ASCII are not proved, only "
-    "checked by correspondence; the OUTPUT2 reader model is tied to op2.py by differential checking (hand transcription, "
-    "no translator). The OUTPUT2 layout is the one pyYeti's reader defines. Trusted: Lean kernel, standard axioms, the "
+    "level_text": "Proof (Lean 4) about transcriptions of pyYeti's readers. OUTPUT4 binary, generic over byte order, 32/64-bit keys, "
+    "single/double precision and the struct/fromfile cut-off: the reader inverts an independent encoder for every variant, layout "
+    "and partition of the columns into strings (file round trip; the dense matrix is rebuilt for any partition); the skipper ends "
+    "where the reader ends; dir lists what load returns; a named read is the filter of the full read by exact name membership (list "
+    "mode keeps all occurrences, dict mode the last); the result never depends on _rowsCutoff (proved on every byte string). OUTPUT4 "
+    "ASCII, on every text the reader accepts: _skipop4_ascii consumes the lines the reader consumes, dir = load, named read = filter. "
+    "OUTPUT2: the readers invert an independent encoder (both key widths, byte orders, precisions, any string partition and record "
+    "split); skipping = reading; directory byte ranges; rdop2record decodes the same bytes in every form, N is only a size hint, "
+    "rdop2tabheaders on pieces of 1-2 keys; rdop2mats(names, which) = filter by 'exact match unless the pattern ends in *' of the "
+    "occurrences `which` picks. Plus exact correspondence of every reader model with pyYeti on generated files, on all 113 sample "
+    "files of pyyeti/tests and on truncated / ill-formed files.",
+    "level_note": "Partial: the reader models are tied to op4.py / op2.py by differential checking (hand transcriptions, no "
+    "translator); OUTPUT4 binary skip/dir/named theorems are about encoded files; ASCII variant round trip (D exponents, other "
+    "widths) by correspondence only; finding op2-rdop2record-uint-i64-struct-format-stays-signed excluded by an explicit hypothesis "
+    "(counterexample proved). The OUTPUT2 layout is the one pyYeti's reader defines. Trusted: Lean kernel, standard axioms, the "
     "Python harness.",
-    "technique": "Lean 4 proof (induction over strings / pieces / columns / blocks with fuel-indexed loops, byte-level "
-    "two's-complement lemmas, generic real codec) + independent Lean encoders read by the real readers + Lean reader "
-    "model run on real and malformed files",
+    "technique": "Lean 4 proof (induction over strings / pieces / columns / records / matrices with fuel-indexed loops, byte-level "
+    "two's-complement lemmas, simulation proofs skipper-vs-reader and cutoff-vs-cutoff on arbitrary inputs) + independent Lean "
+    "encoders read by the real readers + Lean reader models run on real, generated and malformed files",
 }
 
 # ---------------------------------------------------------------------------------------------
@@ -390,32 +422,59 @@ def _check_op4_file_(op4, path, mats, mtypes, conv):
     got = [dn, [tuple(map(int, s)) for s in ds], list(map(int, df)), list(map(int, dt))]
     if got != want:
         return ("dir", got, want)
-    # named subset = filter of the full read (exercises the skippers)
-    if len(mats) > 1:
-        pick = names[-1]
-        try:
-            with warnings.catch_warnings():
-                warnings.simplefilter("ignore")
-                sn, sm, sf, st = op4.load(path, namelist=[pick], into="list")
-        except Exception as e:  # noqa: BLE001
-            return ("namelist-raises", "%s: %s" % (type(e).__name__, e), "the matrices named %r" % pick)
-        idx = [i for i, n in enumerate(names) if n == pick]
-        if sn != [pick] * len(idx):
-            return ("namelist", sn, [pick] * len(idx))
-        for X, i in zip(sm, idx):
-            if _bits(np.asarray(X)) != _bits(exp[i][0]):
-                return ("namelist-values", pick, "matrix %d" % i)
+    # named subset = filter of the full read (exercises the skippers): every distinct name singly, as a string and as a
+    # one-element list, and a two-name list; list mode returns EVERY occurrence in file order, read() the last one
+    distinct = list(dict.fromkeys(names))
+    asks = []
+    for nm in distinct:
+        asks += [nm, [nm]]
+    if len(distinct) > 1:
+        asks.append([distinct[-1], distinct[0]])
+    if len(mats) > 1 or len(asks) > 2:
+        for ask in asks:
+            sel = [ask] if isinstance(ask, str) else ask
+            try:
+                with warnings.catch_warnings():
+                    warnings.simplefilter("ignore")
+                    sn, sm, sf, st = op4.load(path, namelist=ask, into="list")
+                    rd = op4.read(path, namelist=ask)
+            except Exception as e:  # noqa: BLE001
+                return ("namelist-raises", "%s: %s" % (type(e).__name__, e), "the matrices named %r" % (ask,))
+            idx = [i for i, n in enumerate(names) if n in sel]
+            if sn != [names[i] for i in idx] or [int(f) for f in sf] != [mats[i]["form"] for i in idx]:
+                return ("namelist", {"namelist": ask, "returned": sn}, [names[i] for i in idx])
+            for X, i in zip(sm, idx):
+                if _bits(np.asarray(X)) != _bits(exp[i][0]):
+                    return ("namelist-values", {"namelist": ask, "occurrence": i}, "matrix %d of the file" % i)
+            last = {}
+            for i in idx:
+                last[names[i]] = i
+            if list(rd) != list(last):
+                return ("namelist-read-keys", {"namelist": ask, "returned": list(rd)}, list(last))
+            for nm, i in last.items():
+                if _bits(np.asarray(rd[nm])) != _bits(exp[i][0]):
+                    return ("namelist-read-is-not-the-last-occurrence", {"namelist": ask, "name": nm}, "matrix %d of the file (the last %r)" % (i, nm))
     return None
 
 
 # -- OUTPUT4 binary variants --------------------------------------------------------------------
 
 
+def _repeat_names(rng, mats):
+    """matrix names that REPEAT anywhere in the file (kaa, maa, kaa, pha, baa, pha, pha): with probability 1/2 every
+    matrix after the first takes, with probability 0.45, the name of an earlier one (case kept as generated)"""
+    if len(mats) > 1 and rng.random() < 0.5:
+        for i in range(1, len(mats)):
+            if rng.random() < 0.45:
+                mats[i]["name"] = mats[rng.randrange(i)]["name"]
+    return mats
+
+
 def _gen_bin_case(rng, big=False):
     single = rng.random() < 0.5
-    n = 1 if big else rng.choice([1, 2, 3])
+    n = 1 if big else rng.choice([1, 2, 3, 3, 5, 7])
     return {"kind": "op4bin", "endian": rng.choice(["l", "b"]), "bit64": rng.random() < 0.4, "single": single,
-            "mats": [_gen_mat(rng, single, big=big) for _ in range(n)]}
+            "mats": _repeat_names(rng, [_gen_mat(rng, single, big=big) for _ in range(n)])}
 
 
 def _stored_bits(case, v):
@@ -502,13 +561,14 @@ def _gen_asc_case(rng):
     single = rng.random() < 0.5
     maxdig = width - 8  # sign, point, E+ddd
     mats = []
-    for _ in range(rng.choice([1, 2, 3])):
+    for _ in range(rng.choice([1, 2, 3, 3, 5, 7])):
         m = _gen_mat(rng, single)
         m["name"] = m["name"].upper() if rng.random() < 0.7 else m["name"]
         for _, strs in m["cols"]:
             for i, (r0, vals) in enumerate(strs):
                 strs[i] = (r0, [_gen_adec(rng, maxdig, True) for _ in vals])
         mats.append(m)
+    _repeat_names(rng, mats)
     return {"kind": "op4asc", "perline": perline, "width": width, "useD": rng.random() < 0.4,
             "lead1P": rng.random() < 0.6, "fmtD": rng.random() < 0.3, "lower": rng.random() < 0.2,
             "single": single, "mats": mats}
@@ -836,7 +896,7 @@ def correspondence(ctx):
         for c in cases:
             req.append({"op4bin": _bin_tokens, "op4asc": _asc_tokens, "op2": _op2_tokens}[c["kind"]](c))
         rep = drv.ask(req)
-        encoded = []
+        encoded, encoded4, encodedA = [], [], []
         for case, r in zip(cases, rep):
             kind = case["kind"]
             ctx.case((kind, json.dumps(_jsonable_case(case), sort_keys=True)), nontrivial=_nontrivial(case), branch="stream:" + kind)
@@ -857,12 +917,18 @@ def correspondence(ctx):
             else:
                 p = sc.path(".op4")
                 open(p, "wb").write(bytes.fromhex(r))
+                (encoded4 if kind == "op4bin" else encodedA).append((case, bytes.fromhex(r)))
                 if kind == "op4bin":
                     mt = _bin_mtypes(case)
                     ctx.count("op4bin:%s-%s-%s" % (case["endian"], "64" if case["bit64"] else "32", "single" if case["single"] else "double"))
                 else:
                     mt = [(3 if m["cplx"] else 1) + (0 if case["single"] else 1) for m in case["mats"]]
                     ctx.count("op4asc:" + ("D" if case["useD"] else "E"))
+                nms = [m["name"].lower() for m in case["mats"]]
+                if len(set(nms)) < len(nms):
+                    ctx.count("%s:repeated-names" % kind)
+                    if any(nms.count(x) >= 3 for x in nms):
+                        ctx.count("%s:name-three-times" % kind)
                 for m in case["mats"]:
                     ctx.count("%s:layout-%s" % (kind, m["lay"]))
                     if abs(m["rows"] - _ROWS4BIGMAT) <= 1:
@@ -878,7 +944,17 @@ def correspondence(ctx):
             os.remove(p)
         _nastran_files(ctx, op4)
         if len(ctx.disagreements) <= 80:
+            _op4_sample_files(ctx, op4, drv)
+        if len(ctx.disagreements) <= 80:
+            _op4_reader_streams(ctx, op4, drv, sc, encoded4)
+        if len(ctx.disagreements) <= 80:
+            _asc_reader_streams(ctx, op4, drv, sc, encodedA)
+        if len(ctx.disagreements) <= 80:
             _reader_model_streams(ctx, op2, drv, sc, encoded)
+        if len(ctx.disagreements) <= 80:
+            _op2_forms_stream(ctx, op2, drv, sc, encoded)
+        if len(ctx.disagreements) <= 80:
+            _op2_mats_stream(ctx, op2, drv, sc, encoded)
         ctx.extra["first_disagreements"] = [
             {"stream": d["stream"], "impl": str(d["impl"])[:300], "model": str(d["model"])[:300],
              "variant": {k: v for k, v in d["input"].items() if k not in ("mats", "blocks")} if isinstance(d["input"], dict) else None}
@@ -900,7 +976,22 @@ def correspondence(ctx):
                                     "rd2:open-raises-value", "rd2:block-raises-struct", "rd2:block-raises-value",
                                     "rd2:block-raises-index", "rd2:block-table", "rd2:block-matrix", "rd2:l-32", "rd2:l-64",
                                     "rd2:b-32", "rd2:b-64", "rd2:matrix-width-4-real", "rd2:matrix-width-4-complex",
-                                    "rd2:matrix-width-8-real", "rd2:matrix-width-8-complex"])
+                                    "rd2:matrix-width-8-real", "rd2:matrix-width-8-complex"]
+                                 + ["op4bin:repeated-names", "op4asc:repeated-names", "op4bin:name-three-times", "op4asc:name-three-times"]
+                                 + ["stream:rd4:generated", "stream:rd4:sample-file", "stream:asc:sample-file", "stream:rd4:named-plain",
+                                    "stream:rd4:named-prefix", "stream:rd4:named-upper", "stream:rd4:cutoff", "stream:rd4:malformed-truncated",
+                                    "stream:rd4:malformed-content-string-too-long", "stream:rd4:malformed-content-one-value-beyond",
+                                    "rd4:dict-mode", "rd4:named-selects-none", "rd4:named-selects-some", "rd4:raises-struct", "rd4:raises-value",
+                                    "rd4:l-32-single", "rd4:l-32-double", "rd4:l-64-single", "rd4:l-64-double", "rd4:b-32-single",
+                                    "rd4:b-32-double", "rd4:b-64-single", "rd4:b-64-double", "rd4:sample-be-32", "rd4:sample-be-64",
+                                    "rd4:sample-le-32", "rd4:sample-le-64", "rd4:sample-mtype-1", "rd4:sample-mtype-2", "rd4:sample-mtype-3",
+                                    "rd4:sample-mtype-4", "asc:sample-mtype-1", "asc:sample-mtype-2", "asc:sample-mtype-3", "asc:sample-mtype-4",
+                                    "stream:asc:generated", "stream:asc:named", "asc:model-D", "asc:model-E", "asc:named-selects-none",
+                                    "asc:named-selects-some", "stream:rec2:int", "stream:rec2:uint", "stream:rec2:single", "stream:rec2:double",
+                                    "stream:rec2:bytes", "rec2:N=0", "rec2:N>0", "rec2:other-cutoff", "rec2:result-ok", "rec2:result-none",
+                                    "rec2:result-err", "rec2:piece-length-not-a-multiple-of-the-item-width", "stream:mats2:names-none",
+                                    "stream:mats2:names-plain", "stream:mats2:names-wildcard", "mats2:which--1", "mats2:which-0",
+                                    "mats2:which-all", "mats2:selects-none", "mats2:selects-some", "mats2:raises-index"])
     finally:
         sc.close()
 
@@ -1358,6 +1449,645 @@ def _reader_model_streams(ctx, op2, drv, sc, encoded):
                     ctx.count("rd2:matrix-width-%d-%s" % (b["content"][3], "complex" if b["content"][2] else "real"))
 
 
+
+# -- the binary OUTPUT4 reader model (Model/Op4VariantsRead.lean, driver command rd4) against pyYeti -------------------
+
+
+def _canon_dense(X):
+    """per column [(index, float64 bits)] of the non-zero stored reals (two per complex element)"""
+    X = np.asarray(X)
+    rows, ncols = X.shape
+    cplx = bool(np.iscomplexobj(X))
+    if ncols == 0 or rows == 0:
+        return [[] for _ in range(ncols)]
+    raw = np.ascontiguousarray(X.T).view(np.float64).reshape(ncols, -1) if cplx else np.ascontiguousarray(X.T, dtype=np.float64).reshape(ncols, -1)
+    b = raw.view(np.uint64)
+    cols = []
+    for j in range(ncols):
+        idx = np.nonzero(b[j])[0]
+        cols.append(list(zip(idx.tolist(), b[j][idx].tolist())))
+    return cols
+
+
+def _bits_exact(a):
+    """float64 bit patterns, the sign of a zero kept (`_bits` maps -0.0 to +0.0)"""
+    a = np.ascontiguousarray(a)
+    if np.iscomplexobj(a):
+        a = a.astype(np.complex128).view(np.float64)
+    else:
+        a = a.astype(np.float64)
+    return a.reshape(-1).view(np.uint64).tolist()
+
+
+def _canon_op4(names, mats, forms, mtypes):
+    """canonical reading of op4.load(into='list'): (name, rows, cols, form, mtype, sparse, data)"""
+    out = []
+    for name, X, f, ty in zip(names, mats, forms, mtypes):
+        if sp.issparse(X):
+            X = X.tocoo() if not isinstance(X, (sp.coo_matrix, sp.coo_array)) else X
+            w = 2 if np.iscomplexobj(X.data) else 1
+            vb = _bits_exact(np.asarray(X.data))
+            if int(ty) >= 3 and w == 1 and len(vb):
+                raise Infra("complex matrix with real COO data")
+            trip = [(int(i), int(j), tuple(vb[w * k: w * k + w])) for k, (i, j) in enumerate(zip(X.row.tolist(), X.col.tolist()))]
+            out.append((name, int(X.shape[0]), int(X.shape[1]), int(f), int(ty), 1, trip))
+        else:
+            X = np.asarray(X)
+            out.append((name, int(X.shape[0]), int(X.shape[1]), int(f), int(ty), 0, _canon_dense(X)))
+    return out
+
+
+def _parse_rd4_item(txt):
+    f = txt.split(",")
+    name = bytes.fromhex(f[0]).decode("latin1")
+    rows, cols, form, mtype = int(f[1]), int(f[2]), int(f[3]), int(f[4])
+    sparse, width, data = int(f[6]), int(f[7]), f[8]
+    if data.startswith("put-error") or data == "huge":
+        return (name, abs(rows), cols, form, mtype, sparse, data)
+    toks = data.split()
+    conv = _f32_to_f64_bits if width == 4 else (lambda b: b)
+    if sparse:
+        m = 2 if mtype >= 3 else 1
+        vals = conv([int(t) for k, t in enumerate(toks) if k % (2 + m) >= 2])
+        trip = []
+        for k in range(len(toks) // (2 + m)):
+            trip.append((int(toks[k * (2 + m)]), int(toks[k * (2 + m) + 1]), tuple(vals[k * m: k * m + m])))
+        return (name, abs(rows), cols, form, mtype, 1, trip)
+    colsl, i = [], 0
+    while i < len(toks):
+        n = int(toks[i])
+        ent = [t.split(":") for t in toks[i + 1: i + 1 + n]]
+        colsl.append(list(zip([int(a) for a, _ in ent], conv([int(b) for _, b in ent]))))
+        i += 1 + n
+    return (name, abs(rows), cols, form, mtype, 0, colsl)
+
+
+def _parse_rd4(rep, listing=False):
+    """('err', class) or the canonical reading"""
+    if rep.startswith("err"):
+        return ("err", rep.split(" ")[1])
+    if not rep.startswith("ok"):
+        raise Infra("driver C11 rd4: unexpected reply %r" % rep[:80])
+    body = rep.split(" ", 3)
+    items = body[3] if len(body) > 3 else ""
+    if not items:
+        return []
+    if listing:
+        out = []
+        for t in items.split("|"):
+            f = t.split(",")
+            out.append((bytes.fromhex(f[0]).decode("latin1"), int(f[1]), int(f[2]), int(f[3]), int(f[4])))
+        return out
+    return [_parse_rd4_item(t) for t in items.split("|")]
+
+
+def _op4_exc(e):
+    c = _exc_class(e)
+    return ("err", {"empty": "empty"}.get(c, c))
+
+
+def _py_op4_load(op4, path, mode, namelist=None, cut=None, limit=20):
+    """canonical reading by pyYeti's op4.load(into='list'), or ('err', exception class)"""
+    try:
+        with warnings.catch_warnings(), _TimeLimit(limit):
+            warnings.simplefilter("ignore")
+            o = op4.OP4()
+            if cut is not None:
+                o._rowsCutoff = cut
+            return _canon_op4(*o.load(path, namelist=namelist, into="list", sparse=mode))
+    except Infra:
+        raise
+    except Exception as e:  # noqa: BLE001
+        return _op4_exc(e)
+
+
+def _py_op4_dir(op4, path, limit=20):
+    try:
+        with warnings.catch_warnings(), _TimeLimit(limit):
+            warnings.simplefilter("ignore")
+            n, s, f, t = op4.dir(path, verbose=False)
+        return [(a, int(b[0]), int(b[1]), int(c), int(d)) for a, b, c, d in zip(n, s, f, t)]
+    except Exception as e:  # noqa: BLE001
+        return _op4_exc(e)
+
+
+def _expected_rd4(case, mode):
+    """what the logical content of a generated op4bin case stands for, in the canonical form of _canon_op4"""
+    out = []
+    for m, mt in zip(case["mats"], _bin_mtypes(case)):
+        D, trip, auto = _expected(m)
+        sparse = auto if mode is None else mode
+        if sparse:
+            w = 2 if m["cplx"] else 1
+            vb = _bits(np.array([x for _, _, x in trip], dtype=complex if m["cplx"] else float))
+            data = [(i, j, tuple(vb[w * k: w * k + w])) for k, (i, j, _) in enumerate(trip)]
+        else:
+            data = _canon_dense(D)
+        out.append((m["name"].lower(), m["rows"], m["ncols"], m["form"], mt, 1 if sparse else 0, data))
+    return out
+
+
+def _exotic4(model):
+    return isinstance(model, tuple) and model and model[0] == "err" and model[1] in ("exotic", "fuel")
+
+
+def _rd4_norm(model):
+    """a 'put-error:<class>' item of the model stands for an exception of that class raised while the matrix is assembled"""
+    if isinstance(model, list):
+        for it in model:
+            if len(it) > 6 and isinstance(it[6], str) and it[6].startswith("put-error"):
+                return ("err", it[6].split(":")[1])
+    return model
+
+
+def _rd4_compare(ctx, stream, desc, impl, model):
+    """exact comparison of two canonical readings"""
+    model = _rd4_norm(model)
+    if _exotic4(model):
+        ctx.skip("OUTPUT4 reader model: behaviour outside the model (negative index / non-ASCII name / backward seek) on a malformed file")
+        return True
+    d = _first_diff(impl, model)
+    if d:
+        ctx.disagree(stream + d[0], desc, str(d[1])[:300], str(d[2])[:300])
+        return False
+    return True
+
+
+def _op4_reader_streams(ctx, op4, drv, sc, encoded4):
+    """`encoded4` = [(case, bytes)] of the generated binary OUTPUT4 cases (bytes from the Lean encoder)"""
+    rng = ctx.rng
+    modes = (("d", False), ("s", True), ("a", None))
+    # (a) generated files: the reader model returns the encoded content (pyYeti = content is checked by _check_op4_file)
+    req = ["rd4 3000 * - " + data.hex() for _, data in encoded4]
+    rep = drv.ask(req) if req else []
+    for (case, data), r in zip(encoded4, rep):
+        parts = r.split(" ;; ")
+        ctx.case(("rd4:generated", hashlib_key(data)), nontrivial=_nontrivial(case), branch="stream:rd4:generated")
+        ok = True
+        for k, (mc, flag) in enumerate(modes):
+            model = _parse_rd4(parts[k])
+            d = _first_diff(_expected_rd4(case, flag), model)
+            if d:
+                ctx.disagree("rd4:generated:model-vs-content-" + mc + d[0], _jsonable_case(case), "content: %s" % str(d[1])[:200], "Lean reader: %s" % str(d[2])[:200])
+                ok = False
+                break
+        if ok:
+            want = [(m["name"].lower(), m["rows"], m["ncols"], m["form"], mt) for m, mt in zip(case["mats"], _bin_mtypes(case))]
+            d = _first_diff(want, _parse_rd4(parts[3], listing=True))
+            if d:
+                ctx.disagree("rd4:generated:model-dir-vs-content" + d[0], _jsonable_case(case), str(d[1])[:200], str(d[2])[:200])
+        ctx.count("rd4:%s-%s-%s" % (case["endian"], "64" if case["bit64"] else "32", "single" if case["single"] else "double"))
+        if len(ctx.disagreements) > 80:
+            return
+    # (b) named subsets, dict mode, other cut-offs, truncated files: model = pyYeti
+    items = []  # (stream, desc, bytes, mode flag, namelist (python), names token, cut)
+    pick = [i for i, (c, d) in enumerate(encoded4) if len(d) <= 120000]
+    rng.shuffle(pick)
+    for i in pick[: ctx.pick(260, 2000)]:
+        case, data = encoded4[i]
+        names = [m["name"].lower() for m in case["mats"]]
+        nl = rng.choice([[names[-1]], [names[0], names[-1]], [names[0][: max(1, len(names[0]) - 1)]], [names[-1] + "x"],
+                         [names[0].upper()], [rng.choice(names), "zz9"], list(reversed(names))])
+        kind = ("prefix" if nl[0] not in names and any(n.startswith(nl[0]) for n in names) else
+                "upper" if nl[0] != nl[0].lower() else "plain")
+        mode = rng.choice([False, True, None])
+        items.append(("rd4:named-" + kind, {"case": case, "namelist": nl}, data, mode, nl, ",".join(n.encode().hex() for n in nl), None))
+        cut = rng.choice([0, 1, 2, 7, 2999, 3001, 10 ** 9])
+        items.append(("rd4:cutoff", {"case": case, "cut": cut}, data, mode, None, "-", cut))
+    for i in pick[: ctx.pick(160, 1200)]:
+        case, data = encoded4[i]
+        if len(data) > 60000:
+            continue
+        for k in (rng.randrange(0, len(data) + 1), max(0, len(data) - rng.randint(1, 40)), rng.randrange(0, min(len(data), 200) + 1)):
+            items.append(("rd4:malformed-truncated", {"case": case, "cut": k}, data[:k], rng.choice([False, True, None]), None, "-", None))
+    # contents that violate ONE well-formedness hypothesis of the theorems (the framing stays intact): numpy's slice
+    # assignment / scipy's COO constructor decide what happens
+    import copy
+
+    for i in pick[: ctx.pick(200, 1500)]:
+        case, _ = encoded4[i]
+        cands = [(k, j, q) for k, m in enumerate(case["mats"]) for j, (c, strs) in enumerate(m["cols"]) for q in range(len(strs))
+                 if m["rows"] < 100]
+        if not cands:
+            continue
+        c2 = copy.deepcopy(case)
+        k, j, q = rng.choice(cands)
+        m = c2["mats"][k]
+        mult = 2 if m["cplx"] else 1
+        col, strs = m["cols"][j]
+        r0, vals = strs[q]
+        kind = rng.choice(["string-too-long", "one-value-beyond", "odd-complex" if m["cplx"] else "one-value-beyond"])
+        if kind == "string-too-long":
+            strs[q] = (m["rows"] - rng.randint(0, 1), vals + [1.5] * (mult * rng.randint(1, 2)))
+        elif kind == "one-value-beyond":
+            strs[q] = (m["rows"] + rng.randint(0, 2), vals[:mult])
+        else:
+            strs[q] = (r0, vals + [2.5])
+        if m["lay"] == "n" and strs[q][0] + 1 >= 65536:
+            continue
+        items.append(("rd4:malformed-content-" + kind, {"case": c2, "violates": kind}, _py_encode_bin(c2), rng.choice([False, True, None]), None, "-", None))
+    req = ["rd4 %d %s %s %s" % (3000 if cut is None else cut, {False: "d", True: "s", None: "a"}[mode], tok, data.hex())
+           for _, _, data, mode, _, tok, cut in items]
+    rep = drv.ask(req) if req else []
+    for (stream, desc, data, mode, nl, tok, cut), r in zip(items, rep):
+        ctx.case((stream, hashlib_key(data), str(mode), tok, cut), nontrivial=True, branch="stream:" + stream)
+        model = _rd4_norm(_parse_rd4(r))
+        p = sc.path(".op4")
+        open(p, "wb").write(data)
+        impl = _py_op4_load(op4, p, mode, namelist=nl, cut=cut, limit=8)
+        if stream == "rd4:cutoff" and not isinstance(impl, tuple):
+            base = _py_op4_load(op4, p, mode, limit=8)
+            if base != impl:
+                ctx.disagree("rd4:cutoff:pyyeti-default-vs-cut", {"case": _jsonable_case(desc["case"]), "cut": cut}, "cut-off %r changes the read" % cut, "the same matrices")
+        if stream.startswith("rd4:named") and not isinstance(impl, tuple) and rng.random() < 0.5:
+            # dict mode keeps the last occurrence of a repeated name, in order of first appearance
+            try:
+                with warnings.catch_warnings():
+                    warnings.simplefilter("ignore")
+                    dct = op4.load(p, namelist=nl, into="dct", sparse=mode)
+                lst = {}
+                for it in impl:
+                    lst[it[0]] = it
+                got = _canon_op4(list(dct), [v[0] for v in dct.values()], [v[1] for v in dct.values()], [v[2] for v in dct.values()])
+                if got != list(lst.values()):
+                    ctx.disagree("rd4:named:dict-vs-list", {"case": _jsonable_case(desc["case"]), "namelist": nl}, [g[:5] for g in got], [g[:5] for g in lst.values()])
+                ctx.count("rd4:dict-mode")
+            except Exception as e:  # noqa: BLE001
+                ctx.disagree("rd4:named:dict-raises", {"case": _jsonable_case(desc["case"]), "namelist": nl}, repr(e), "a dictionary")
+        os.remove(p)
+        dj = dict(desc, case=_jsonable_case(desc["case"]))
+        if (stream == "rd4:malformed-truncated" and model == ("err", "struct") and isinstance(impl, tuple) and impl[0] == "err"
+                and impl[1] in ("value", "index")):
+            # pyYeti puts every string into the matrix as soon as it is read, the model collects the puts and applies them
+            # after the read: on a file cut inside a string read by numpy.fromfile (which returns the values that are
+            # there) an odd number of reals of a complex string makes the put raise before the short read is noticed
+            ctx.count("rd4:truncated-put-raises-before-the-short-read")
+            continue
+        if _rd4_compare(ctx, stream, dj, impl, model):
+            if isinstance(model, tuple):
+                ctx.count("rd4:raises-" + model[1])
+            elif stream.startswith("rd4:named"):
+                ctx.count("rd4:named-selects-%s" % ("none" if not model else "some"))
+        if len(ctx.disagreements) > 80:
+            return
+
+
+def _op4_sample_files(ctx, op4, drv):
+    """EVERY *.op4 under pyyeti/tests: binary files by the reader model of Model/Op4VariantsRead.lean (rd4), ASCII files
+    by the ASCII reader model of Model/Op4Ascii.lean (driver C04, adec *) - three read modes and the listing"""
+    from props import c04 as _c04
+
+    root = os.path.join(ctx.repo, "pyyeti", "tests")
+    files = sorted(glob.glob(os.path.join(root, "**", "*.op4"), recursive=True))
+    breq, bfiles, areq, afiles = [], [], [], []
+    for f in files:
+        data = open(f, "rb").read()
+        if len(data) > 400000 and not ctx.thorough:
+            ctx.skip("op4 sample file larger than 400 kB (quick tier)")
+            continue
+        if len(data) >= 16 and min(data[:4]) == 0:
+            breq.append("rd4 3000 * - " + data.hex())
+            bfiles.append(f)
+        else:
+            dr = _py_op4_dir(op4, f, limit=120)
+            huge = isinstance(dr, list) and any(a[1] * a[2] > 20000000 for a in dr)
+            # a dense read of a 1e7 x 1e7 matrix is impossible on both sides: sparse read and listing only
+            areq.append(("adec s " if huge else "adec * ") + data.hex())
+            if huge:
+                areq.append("adir " + data.hex())
+            afiles.append((f, huge, dr))
+    brep = drv.ask(breq) if breq else []
+    for f, r in zip(bfiles, brep):
+        name = os.path.relpath(f, ctx.repo)
+        parts = r.split(" ;; ")
+        dr = _py_op4_dir(op4, f, limit=120)
+        huge = isinstance(dr, list) and any(a[1] * a[2] > 20000000 for a in dr)
+        for k, (mc, flag) in enumerate((("d", False), ("s", True), ("a", None))):
+            ctx.case(("rd4:sample-file", name, mc), nontrivial=True, branch="stream:rd4:sample-file")
+            model = _parse_rd4(parts[k])
+            if huge and isinstance(model, list) and any(it[6] == "huge" for it in model):
+                ctx.skip("op4 sample file with a matrix of more than 2e7 elements: dense read skipped")
+                continue
+            impl = _py_op4_load(op4, f, flag, limit=120)
+            _rd4_compare(ctx, "rd4:sample-file:" + mc, {"file": name}, impl, model)
+        ctx.case(("rd4:sample-file", name, "dir"), nontrivial=True, branch="stream:rd4:sample-file")
+        _rd4_compare(ctx, "rd4:sample-file:dir", {"file": name}, dr, _parse_rd4(parts[3], listing=True))
+        if isinstance(dr, list):
+            o = op4.OP4()
+            o._op4open_read(f)
+            ctx.count("rd4:sample-%s-%s" % ("be" if o._endian == ">" else "le", "64" if o._bit64 else "32"))
+            o._op4close()
+            for a in dr:
+                ctx.count("rd4:sample-mtype-%d" % a[4])
+    arep = ctx.driver("C04").ask(areq) if areq else []
+    k0 = 0
+    for f, huge, dr in afiles:
+        name = os.path.relpath(f, ctx.repo)
+        if huge:
+            parts = [None, arep[k0], None, arep[k0 + 1]]
+            k0 += 2
+            ctx.skip("op4 ASCII sample file with a matrix of more than 2e7 elements: dense read skipped")
+        else:
+            parts = arep[k0].split(" ;; ")
+            k0 += 1
+            if len(parts) != 4:
+                ctx.disagree("asc:sample-file:driver", {"file": name}, "a reading", arep[k0 - 1][:100])
+                continue
+        for k, (mc, flag) in enumerate((("d", False), ("s", True), ("a", None))):
+            if parts[k] is None:
+                continue
+            ctx.case(("asc:sample-file", name, mc), nontrivial=True, branch="stream:asc:sample-file")
+            model = _c04._parse_dec(parts[k])
+            try:
+                with warnings.catch_warnings(), _TimeLimit(120):
+                    warnings.simplefilter("ignore")
+                    impl = _c04._canon_loaded(*op4.load(f, into="list", sparse=flag))
+            except Exception as e:  # noqa: BLE001
+                impl = "raises " + type(e).__name__
+            if impl != model:
+                d = _first_diff(impl, model) if isinstance(model, list) and isinstance(impl, list) else ("", impl, model)
+                ctx.disagree("asc:sample-file:" + mc + d[0], {"file": name}, str(d[1])[:300], str(d[2])[:300])
+        ctx.case(("asc:sample-file", name, "dir"), nontrivial=True, branch="stream:asc:sample-file")
+        md = _c04._parse_dir(parts[3])
+        if md != dr:
+            ctx.disagree("asc:sample-file:dir", {"file": name}, str(dr)[:300], str(md)[:300])
+        if isinstance(dr, list):
+            for a in dr:
+                ctx.count("asc:sample-mtype-%d" % a[4])
+
+
+def _asc_reader_streams(ctx, op4, drv, sc, encodedA):
+    """generated ASCII variant files (E / D exponents, any announced nEw.d, all layouts and partitions): the ASCII
+    reader model of Model/Op4Ascii.lean (driver C04: adec *) and the name-list loop of Model/Op4VariantsAscii.lean
+    (driver C11: rda) against pyYeti"""
+    from props import c04 as _c04
+
+    rng = ctx.rng
+    pick = list(range(len(encodedA)))
+    rng.shuffle(pick)
+    pick = pick[: ctx.pick(260, 2500)]
+    rep = ctx.driver("C04").ask(["adec * " + encodedA[i][1].hex() for i in pick]) if pick else []
+    named = []
+    for i, r in zip(pick, rep):
+        case, data = encodedA[i]
+        parts = r.split(" ;; ")
+        ctx.case(("asc:generated", hashlib_key(data)), nontrivial=_nontrivial(case), branch="stream:asc:generated")
+        p = sc.path(".op4")
+        open(p, "wb").write(data)
+        ok = len(parts) == 4
+        if not ok:
+            ctx.disagree("asc:generated:driver", _jsonable_case(case), "a reading", r[:100])
+        for k, (mc, flag) in enumerate((("d", False), ("s", True), ("a", None))):
+            if not ok:
+                break
+            model = _c04._parse_dec(parts[k])
+            try:
+                with warnings.catch_warnings(), _TimeLimit(15):
+                    warnings.simplefilter("ignore")
+                    impl = _c04._canon_loaded(*op4.load(p, into="list", sparse=flag))
+            except Exception as e:  # noqa: BLE001
+                impl = "raises " + type(e).__name__
+            if impl != model:
+                d = _first_diff(impl, model) if isinstance(model, list) and isinstance(impl, list) else ("", impl, model)
+                ctx.disagree("asc:generated:" + mc + d[0], _jsonable_case(case), str(d[1])[:300], str(d[2])[:300])
+                ok = False
+        if ok:
+            md, dr = _c04._parse_dir(parts[3]), _py_op4_dir(op4, p)
+            if md != dr:
+                ctx.disagree("asc:generated:dir", _jsonable_case(case), str(dr)[:300], str(md)[:300])
+            ctx.count("asc:model-%s" % ("D" if case["useD"] else "E"))
+            names = [m["name"].lower() for m in case["mats"]]
+            nl = rng.choice([[names[-1]], [names[0][: max(1, len(names[0]) - 1)]], [names[0].upper()], [rng.choice(names), "zz9"],
+                             list(reversed(names))])
+            named.append((case, data, nl))
+        os.remove(p)
+        if len(ctx.disagreements) > 80:
+            return
+    rep = drv.ask(["rda %s %s" % (",".join(n.encode().hex() for n in nl), data.hex()) for _, data, nl in named]) if named else []
+    for (case, data, nl), r in zip(named, rep):
+        ctx.case(("asc:named", hashlib_key(data), tuple(nl)), nontrivial=True, branch="stream:asc:named")
+        p = sc.path(".op4")
+        open(p, "wb").write(data)
+        try:
+            with warnings.catch_warnings(), _TimeLimit(15):
+                warnings.simplefilter("ignore")
+                n, X, fo, t = op4.load(p, namelist=nl, into="list")
+            impl = [(a, int(x.shape[0]), int(x.shape[1]), int(b), int(c)) for a, x, b, c in zip(n, X, fo, t)]
+        except Exception as e:  # noqa: BLE001
+            impl = "raises " + type(e).__name__
+        os.remove(p)
+        if r.startswith("ok"):
+            model = []
+            for it in (r[3:].split("|") if r[3:] else []):
+                f = it.split(",")
+                model.append((bytes.fromhex(f[0]).decode("latin1"), abs(int(f[1])), int(f[2]), int(f[3]), int(f[4])))
+        else:
+            model = "raises"
+        if impl != model:
+            ctx.disagree("asc:named", {"case": _jsonable_case(case), "namelist": nl}, str(impl)[:300], str(model)[:300])
+        else:
+            ctx.count("asc:named-selects-%s" % ("none" if not model else "some"))
+
+
+
+# -- rdop2record(form, N) and rdop2mats(names, which): Model/Op2ReadForms.lean (driver commands rec2, mats2) ---------
+
+_FORMS = {"i": "int", "u": "uint", "s": "single", "d": "double", "b": "bytes"}
+
+
+def _py_record(o2, pos, form, N, kb, cut):
+    """canonical result of o2.rdop2record(form, N) called at byte `pos`: ('err', class) | ('none', consumed) |
+    ('ok', consumed, [bit patterns / bytes])"""
+    o2._rowsCutoff = cut
+    o2._fileh.seek(pos)
+    try:
+        with _TimeLimit(8):
+            r = o2.rdop2record(form=_FORMS[form], N=N)
+    except Exception as e:  # noqa: BLE001
+        return ("err", _exc_class(e))
+    finally:
+        o2._rowsCutoff = 3000
+    used = int(o2._fileh.tell()) - pos
+    if r is None:
+        return ("none", used)
+    if form == "b":
+        return ("ok", used, list(r))
+    a = np.asarray(r)
+    if form in ("i", "u"):
+        return ("ok", used, [int(x) % (1 << (8 * kb)) for x in a.tolist()])
+    if form == "s":
+        return ("ok", used, np.ascontiguousarray(a, dtype=np.float32).view(np.uint32).tolist())
+    return ("ok", used, np.ascontiguousarray(a, dtype=np.float64).view(np.uint64).tolist())
+
+
+def _parse_rec2(r):
+    t = r.split(" ")
+    if t[0] == "err":
+        return ("err", t[1])
+    if t[0] == "none":
+        return ("none", int(t[1]))
+    if t[0] != "ok":
+        raise Infra("driver C11 rec2: unexpected reply %r" % r[:80])
+    return ("ok", int(t[1]), [int(x) for x in t[3:3 + int(t[2])]])
+
+
+def _op2_forms_stream(ctx, op2, drv, sc, encoded):
+    rng = ctx.rng
+    cand = [i for i, (case, _, data) in enumerate(encoded) if len(data) < 150000 and any(b["t"] == "t" and b["records"] for b in case["blocks"])]
+    rng.shuffle(cand)
+    items = []
+    for i in cand[: ctx.pick(120, 900)]:
+        case, positions, data = encoded[i]
+        kb = 8 if case["bit64"] else 4
+        p = sc.path(".op2")
+        open(p, "wb").write(data)
+        try:
+            o2 = op2.OP2(p)
+        except Exception as e:  # noqa: BLE001
+            ctx.disagree("rec2:open-raises", _jsonable_case(case), repr(e), "an open file")
+            os.remove(p)
+            continue
+        try:
+            for sn, b in zip(o2.dblist, case["blocks"]):
+                if b["t"] != "t" or not b["records"]:
+                    continue
+                o2.set_position(sn.start)
+                o2.rdop2nt()
+                starts = []
+                for pieces in b["records"]:
+                    starts.append(int(o2._fileh.tell()))
+                    o2.skipop2record()
+                starts.append(int(o2._fileh.tell()))  # the end-of-table key: rdop2record returns None
+                for k in rng.sample(range(len(starts)), min(len(starts), 2)):
+                    pos = starts[k]
+                    total = sum(len(pc) for pc in b["records"][k]) if k < len(b["records"]) else 0
+                    big = total > 400
+                    for form in (["i", rng.choice("usdb")] if big else ["i", "u", "s", "d", "b"]):
+                        w = {"i": kb, "u": kb, "s": 4, "d": 8, "b": 1}[form]
+                        n_items = total * kb // w
+                        for N in ({0, n_items} if big else {0, n_items, max(0, n_items - 1), n_items + 2, 1}):
+                            cut = rng.choice([3000, 3000, 0, 2, 10 ** 9])
+                            impl = _py_record(o2, pos, form, N, kb, cut)
+                            items.append((case, pos, form, N, cut, data, impl, k < len(b["records"]) and
+                                          any((len(pc) * kb) % w for pc in b["records"][k])))
+        finally:
+            o2._fileh.close()
+            o2._fileh = None
+            os.remove(p)
+    rep = drv.ask(["rec2 %s %d %d %s %d %s" % (case["endian"], 1 if case["bit64"] else 0, cut, form, N, data[pos:].hex())
+                   for case, pos, form, N, cut, data, _, _ in items]) if items else []
+    for (case, pos, form, N, cut, data, impl, misaligned), r in zip(items, rep):
+        stream = "rec2:%s" % _FORMS[form]
+        ctx.case((stream, hashlib_key(data), pos, N, cut), nontrivial=True, branch="stream:" + stream)
+        model = _parse_rec2(r)
+        if model[0] == "err" and model[1] in ("exotic", "fuel"):
+            if impl == ("err", "exotic") and form == "u" and case["bit64"]:
+                # model and code agree on the finding: OverflowError of the signed struct format below the cut-off
+                ctx.count("rec2:uint-i64-overflow-below-cutoff")
+                continue
+            ctx.skip("rdop2record: N larger than the record (uninitialised tail of np.empty) or behaviour outside the model")
+            continue
+        if impl != model:
+            ctx.disagree(stream, {"case": _jsonable_case(case), "pos": pos, "form": _FORMS[form], "N": N, "cut": cut},
+                         str(impl)[:300], str(model)[:300])
+            if len(ctx.disagreements) > 80:
+                return
+            continue
+        ctx.count("rec2:N%s" % ("=0" if N == 0 else ">0"))
+        ctx.count("rec2:result-%s" % model[0])
+        if misaligned:
+            ctx.count("rec2:piece-length-not-a-multiple-of-the-item-width")
+        if model[0] == "ok" and N == 0 and cut != 3000:
+            ctx.count("rec2:other-cutoff")
+
+
+def _canon_mats(d):
+    """rdop2mats result -> [(namehex, [canonical matrices])] in dict order"""
+    out = []
+    for nm, X in d.items():
+        Xs = X if isinstance(X, list) else [X]
+        out.append((nm.encode().hex(), Xs))
+    return out
+
+
+def _op2_mats_stream(ctx, op2, drv, sc, encoded):
+    rng = ctx.rng
+    cand = [i for i, (case, _, data) in enumerate(encoded) if len(data) < 80000 and any(b["t"] == "m" for b in case["blocks"])]
+    rng.shuffle(cand)
+    items = []
+    for i in cand[: ctx.pick(200, 1500)]:
+        case, positions, data = encoded[i]
+        mnames = [b["name"] for b in case["blocks"] if b["t"] == "m"]
+        nm = rng.choice(mnames)
+        choices = [None, [nm.lower()], [nm[: max(1, len(nm) - 1)].lower() + "*"], [nm[: max(1, len(nm) - 1)]], ["*"], [nm, "zz*"],
+                   [nm + "x"], [""], ["k*", nm.lower()], [nm[0].lower() + "*"]]
+        for names in rng.sample(choices, 3):
+            which = rng.choice([-1, -1, 0, 1, -2, "all", 5])
+            items.append((case, data, names, which))
+    req = []
+    for case, data, names, which in items:
+        tok = "-" if names is None else ",".join(n.encode().hex() if n else "" for n in names)
+        if names is not None and any(n == "" for n in names):
+            tok = ",".join(n.encode().hex() for n in names)  # an empty pattern is an empty hex token
+        req.append("mats2 %s %s %s" % (which, tok if tok else ",", data.hex()))
+    rep = drv.ask(req) if req else []
+    for (case, data, names, which), r in zip(items, rep):
+        kind = "none" if names is None else ("wildcard" if any(n.endswith("*") for n in names) else "plain")
+        stream = "mats2:names-%s" % kind
+        ctx.case((stream, hashlib_key(data), str(names), str(which)), nontrivial=True, branch="stream:" + stream)
+        if r.startswith("err"):
+            model = ("err", r.split(" ")[1])
+        else:
+            tk = _Toks(r)
+            tk.next()
+            model = []
+            for _ in range(tk.int()):
+                nmh = tk.hex()
+                ms = []
+                for _ in range(tk.int()):
+                    if tk.next() != "M":
+                        raise Infra("driver C11 mats2: matrix expected")
+                    ms.append(_parse_mat(tk))
+                model.append((nmh, ms))
+        if isinstance(model, tuple) and model[1] in ("exotic", "fuel"):
+            ctx.skip("rdop2mats: behaviour outside the model")
+            continue
+        p = sc.path(".op2")
+        open(p, "wb").write(data)
+        try:
+            o2 = op2.OP2(p)
+            try:
+                with _TimeLimit(10):
+                    d = o2.rdop2mats(names=names, which=which)
+                impl = []
+                for nmh, Xs in _canon_mats(d):
+                    sns = [x for x in o2.dblist if x.name.encode().hex() == nmh and x.dbtype == 1]
+                    w = o2._fbytes if (sns[0].trailer[4] & 1) else 8
+                    # all blocks of one name may differ in precision: take each matrix's own width
+                    ws = [o2._fbytes if (x.trailer[4] & 1) else 8 for x in sns]
+                    if which == "all":
+                        impl.append((nmh, [_canon_matrix(X, wk) for X, wk in zip(Xs, ws)]))
+                    else:
+                        impl.append((nmh, [_canon_matrix(Xs[0], ws[which])]))
+            finally:
+                o2._fileh.close()
+                o2._fileh = None
+        except Exception as e:  # noqa: BLE001
+            impl = ("err", _exc_class(e))
+        os.remove(p)
+        d = _first_diff(impl, model)
+        if d:
+            ctx.disagree(stream + d[0], {"case": _jsonable_case(case), "names": names, "which": which}, str(d[1])[:300], str(d[2])[:300])
+            if len(ctx.disagreements) > 80:
+                return
+            continue
+        ctx.count("mats2:which-%s" % which)
+        if isinstance(model, tuple):
+            ctx.count("mats2:raises-" + model[1])
+        elif names is not None:
+            ctx.count("mats2:selects-%s" % ("none" if not model else "some"))
+
+
 def hashlib_key(data):
     import hashlib
 
@@ -1377,18 +2107,238 @@ def _family(case, what):
     return "op4-ascii-variant-%s-%s" % ("D" if case["useD"] else "E", what)
 
 
+def _name_test(name, namelist):
+    """the documented name test of op4.load(namelist=...): the (lower-case) matrix name is one of the names given"""
+    return (not namelist) or name in ([namelist] if isinstance(namelist, str) else list(namelist))
+
+
+def _oracle_op4_subsets(op4, path, mats):
+    """named subset = filter of the full read (exact name test, all occurrences, file order); dict mode = last
+    occurrence per name; the result does not depend on _rowsCutoff.  Public API only."""
+    names = [m["name"].lower() for m in mats]
+    try:
+        with warnings.catch_warnings(), _TimeLimit(15):
+            warnings.simplefilter("ignore")
+            fn, fm, ff, ft = op4.load(path, into="list")
+            full = list(zip(fn, [_bits(np.asarray(x)) for x in fm], map(int, ff), map(int, ft)))
+            distinct = list(dict.fromkeys(names))
+            cands = [names[0][: max(1, len(names[0]) - 1)], [names[-1] + "x"], [names[0].upper()], list(reversed(names))]
+            for nm in distinct:
+                cands += [nm, [nm]]
+            if len(distinct) > 1:
+                cands.append([distinct[-1], distinct[0]])
+            for nl in cands:
+                sn, sm, sf, st = op4.load(path, namelist=nl, into="list")
+                got = list(zip(sn, [_bits(np.asarray(x)) for x in sm], map(int, sf), map(int, st)))
+                want = [t for t in full if _name_test(t[0], nl)]
+                if got != want:
+                    return ("named-subset-is-not-the-filter", {"namelist": nl, "returned": [g[0] for g in got]}, [w[0] for w in want])
+                d = op4.load(path, namelist=nl, into="dct")
+                wd = {}
+                for t in want:
+                    wd[t[0]] = t
+                gd = [(k, _bits(np.asarray(v[0])), int(v[1]), int(v[2])) for k, v in d.items()]
+                if gd != list(wd.values()):
+                    return ("dict-mode-is-not-last-occurrence", {"namelist": nl, "returned": [g[0] for g in gd]}, list(wd))
+                rd = op4.read(path, namelist=nl)
+                if [(k, _bits(np.asarray(v))) for k, v in rd.items()] != [(k, t[1]) for k, t in wd.items()]:
+                    return ("read-is-not-last-occurrence", {"namelist": nl, "returned": list(rd)}, list(wd))
+            for cut in (1, 10 ** 9):
+                o = op4.OP4()
+                o._rowsCutoff = cut
+                cn, cm, cf, ct = o.load(path, into="list")
+                if list(zip(cn, [_bits(np.asarray(x)) for x in cm], map(int, cf), map(int, ct))) != full:
+                    return ("cutoff-changes-the-read", {"_rowsCutoff": cut}, "the same matrices as with the default 3000")
+    except TimeoutError as e:
+        return ("timeout", str(e), "a read that terminates")
+    except Exception as e:  # noqa: BLE001
+        return ("named-read-raises", "%s: %s" % (type(e).__name__, e), "the named matrices")
+    return None
+
+
+_UINT_FINDING = "op2-rdop2record-uint-i64-struct-format-stays-signed"
+
+
+def _oracle_op2_forms(op2, path, case):
+    """every form of rdop2record decodes the same bytes (reinterpreted), N = item count changes nothing, the
+    cut-off changes nothing; rdop2mats(names, which) = filter of rdop2mats(which) by the documented name test.
+    Public API only (plus the logical content the file was encoded from)."""
+    e = "<" if case["endian"] == "l" else ">"
+    kb = 8 if case["bit64"] else 4
+    o2 = op2.OP2(path)
+    finding = None
+    try:
+        for sn, b in zip(o2.dblist, case["blocks"]):
+            if b["t"] != "t":
+                continue
+            o2.set_position(sn.start)
+            o2.rdop2nt()
+            starts = []
+            for _ in b["records"]:
+                starts.append(o2._fileh.tell())
+                o2.skipop2record()
+            for pos, pieces in list(zip(starts, b["records"]))[:3]:
+                B = b"".join(struct.pack(e + "%d%s" % (len(pc), "q" if kb == 8 else "i"), *pc) for pc in pieces)
+                for form, dt, w in (("int", e + ("i8" if kb == 8 else "i4"), kb), ("uint", e + ("u8" if kb == 8 else "u4"), kb),
+                                    ("single", e + "f4", 4), ("double", e + "f8", 8), ("bytes", None, 1)):
+                    if any((len(pc) * kb) % w for pc in pieces):
+                        continue  # reclen // bytes_per drops a partial item: outside the property
+                    want = list(B) if dt is None else np.frombuffer(B, dtype=dt)
+                    for cut in (3000, 0):
+                        for N in ((0,) if dt is None else (0, len(want))):
+                            o2._rowsCutoff = cut
+                            o2._fileh.seek(pos)
+                            try:
+                                got = o2.rdop2record(form, N)
+                            except Exception as ex:  # noqa: BLE001
+                                o2._rowsCutoff = 3000
+                                fam = _UINT_FINDING if (form == "uint" and kb == 8 and isinstance(ex, OverflowError)) else None
+                                if fam:  # the known family: note it once, go on with the other checks
+                                    finding = finding or ("rdop2record-form-raises", {"form": form, "N": N, "_rowsCutoff": cut,
+                                                          "record": [list(pc) for pc in pieces][:4], "raises": "%s: %s" % (type(ex).__name__, ex)},
+                                                          "the payload bytes read as uint (as with _rowsCutoff = 0)", fam)
+                                    continue
+                                return ("rdop2record-form-raises", {"form": form, "N": N, "_rowsCutoff": cut, "record": [list(pc) for pc in pieces][:4],
+                                                                    "raises": "%s: %s" % (type(ex).__name__, ex)},
+                                        "the payload bytes read as %s" % form, fam)
+                            o2._rowsCutoff = 3000
+                            if dt is None:
+                                same = list(got) == want
+                            else:
+                                g = np.asarray(got)
+                                same = g.dtype.itemsize == w and g.astype(g.dtype.newbyteorder(e)).tobytes() == B
+                            if not same:
+                                return ("rdop2record-form-differs", {"form": form, "N": N, "_rowsCutoff": cut}, "the payload bytes read as %s" % form, None)
+        mblocks = [b for b in case["blocks"] if b["t"] == "m"]
+        if mblocks:
+            byname = {}
+            for b in mblocks:
+                byname.setdefault(b["name"], []).append(_bits(_op2_expected_matrix(b)))
+            nm = mblocks[0]["name"]
+            for names in (None, [nm.lower()], [nm[: max(1, len(nm) - 1)].lower() + "*"], [nm[: max(1, len(nm) - 1)]], ["*"], [nm + "x", nm]):
+                for which in (-1, 0, 1, -2, "all"):
+                    try:
+                        d = o2.rdop2mats(names=names, which=which)
+                    except IndexError:
+                        d = "IndexError"
+
+                    def ok(name):
+                        if names is None:
+                            return True
+                        for p in names:
+                            p = p.upper()
+                            if (name.startswith(p[:-1]) if p.endswith("*") else name == p):
+                                return True
+                        return False
+
+                    sel = {k: v for k, v in byname.items() if ok(k)}
+                    if which != "all" and any(not (-len(v) <= which < len(v)) for v in sel.values()):
+                        want = "IndexError"  # Python indexing of the occurrences
+                    else:
+                        want = {k: (v if which == "all" else [v[which]]) for k, v in sel.items()}
+                    got = d if isinstance(d, str) else {k: [_bits(x) for x in (v if which == "all" else [v])] for k, v in d.items()}
+                    if isinstance(got, str) or isinstance(want, str):
+                        if got != want:
+                            return ("rdop2mats-names-which", {"names": names, "which": which, "returned": got if isinstance(got, str) else list(got)},
+                                    want if isinstance(want, str) else list(want), None)
+                        continue
+                    if list(got) != list(want) or got != want:
+                        return ("rdop2mats-names-which", {"names": names, "which": which, "returned": list(got)}, list(want), None)
+    finally:
+        o2._fileh.close()
+        o2._fileh = None
+    return finding
+
+
 def _oracle_case(ctx, sc, case):
     """encode with the independent Python encoder, read with pyYeti; returns failure tuple or None"""
     if case["kind"] == "op4bin":
         p = sc.path(".op4")
         open(p, "wb").write(_py_encode_bin(case))
-        return _check_op4_file(_op4(), p, case["mats"], _bin_mtypes(case))
+        r = _check_op4_file(_op4(), p, case["mats"], _bin_mtypes(case))
+        if r is None and case["mats"]:
+            r = _oracle_op4_subsets(_op4(), p, case["mats"])
+        return r
     if case["kind"] == "op2":
         data, pos = _py_encode_op2(case)
         p = sc.path(".op2")
         open(p, "wb").write(data)
-        return _check_op2_file(_op2(), p, case, pos)
+        r = _check_op2_file(_op2(), p, case, pos)
+        if r is None:
+            try:
+                with _TimeLimit(30):
+                    r = _oracle_op2_forms(_op2(), p, case)
+            except TimeoutError as e:
+                r = ("timeout", str(e), "a read that terminates")
+            except Exception as e:  # noqa: BLE001
+                r = ("forms-or-rdop2mats-raise", "%s: %s" % (type(e).__name__, e), "the encoded records and matrices")
+        return r
     return None
+
+
+def _oracle_ascii(ctx, sc):
+    """ASCII files written by pyYeti's own writer (public API): dir lists what load returns, a named read is the
+    filter of the full read, dict mode keeps the last occurrence"""
+    op4 = _op4()
+    rng = ctx.rng
+    for it in range(ctx.pick(40, 400)):
+        ctx.count("oracle:op4-ascii-written")
+        n = rng.randint(1, 4)
+        n = rng.choice([1, 2, 3, 4, 5, 7])
+        names = [_name(rng).lower() for _ in range(n)]
+        if n > 1 and rng.random() < 0.6:
+            for i in range(1, n):
+                if rng.random() < 0.45:
+                    names[i] = names[rng.randrange(i)]
+        elif n > 1 and rng.random() < 0.4 and len(names[0]) < 8:
+            names[-1] = names[0] + "x"
+        mats = []
+        for _ in range(n):
+            r, c = rng.choice([1, 2, 5, 9]), rng.choice([1, 2, 4])
+            A = np.array([[float(rng.randint(-9, 9)) / rng.choice([1, 2, 4]) if rng.random() < 0.6 else 0.0 for _ in range(c)] for _ in range(r)])
+            if rng.random() < 0.3:
+                A = A + 1j * np.roll(A, 1, axis=0)
+            mats.append(A)
+        p = sc.path(".op4")
+        sparse = rng.choice(["dense", "bigmat", "nonbigmat"])
+        try:
+            with warnings.catch_warnings(), _TimeLimit(20):
+                warnings.simplefilter("ignore")
+                op4.write(p, names, mats, binary=False, digits=rng.choice([9, 16]), sparse=sparse)
+                dn, ds, df, dt = op4.dir(p, verbose=False)
+                fn, fm, ff, ft = op4.load(p, into="list")
+                bad = None
+                if not (dn == fn == names and [tuple(map(int, x)) for x in ds] == [m.shape for m in mats] == [x.shape for x in fm]
+                        and list(map(int, df)) == list(map(int, ff)) and list(map(int, dt)) == list(map(int, ft))):
+                    bad = ("dir-vs-load", [dn, [tuple(map(int, x)) for x in ds]], [fn, [x.shape for x in fm]])
+                distinct = list(dict.fromkeys(names))
+                asks = [[names[0][: max(1, len(names[0]) - 1)]], [names[0].upper()], [names[0], "zz9"]]
+                for nm in distinct:
+                    asks += [nm, [nm]]
+                if len(distinct) > 1:
+                    asks.append([distinct[-1], distinct[0]])
+                for nl in asks:
+                    if bad:
+                        break
+                    sn, sm, sf, st = op4.load(p, namelist=nl, into="list")
+                    want = [(a, _bits(np.asarray(x))) for a, x in zip(fn, fm) if a in ([nl] if isinstance(nl, str) else nl)]
+                    if [(a, _bits(np.asarray(x))) for a, x in zip(sn, sm)] != want:
+                        bad = ("named-subset-is-not-the-filter", {"namelist": nl, "returned": sn}, [w[0] for w in want])
+                    d = op4.load(p, namelist=nl, into="dct", justmatrix=True)
+                    wd = {}
+                    for a, x in want:
+                        wd[a] = x
+                    if [(k, _bits(np.asarray(v))) for k, v in d.items()] != list(wd.items()):
+                        bad = ("dict-mode-is-not-last-occurrence", {"namelist": nl, "returned": list(d)}, list(wd))
+            if bad:
+                ctx.fail("op4-ascii-written-%s-%s" % (sparse, bad[0]), "ASCII file written by op4.write: " + bad[0],
+                         {"names": names, "shapes": [list(m.shape) for m in mats], "sparse": sparse}, bad[1], bad[2])
+        except Exception as e:  # noqa: BLE001
+            ctx.fail("op4-ascii-written-raises", "writing / listing / reading an ASCII file raises",
+                     {"names": names, "shapes": [list(m.shape) for m in mats], "sparse": sparse}, repr(e), "a listing equal to the read")
+        finally:
+            if os.path.exists(p):
+                os.remove(p)
 
 
 def _shrink(ctx, sc, case):
@@ -1487,6 +2437,11 @@ def search(ctx, hints):
             if isinstance(c, dict) and c.get("kind") in ("op4bin", "op2"):
                 cases.append(_from_json(c))
         rng = ctx.rng
+        # fixed cases (every run): a 64-bit table record holding a negative key, read with every form (the family of
+        # finding op2-rdop2record-uint-i64-struct-format-stays-signed), and its 32-bit twin
+        for b64 in (True, False):
+            cases.append({"kind": "op2", "endian": "l", "bit64": b64, "date": [1, 2, 3], "label": "PYYETI",
+                          "blocks": [{"t": "t", "name": "TAB1", "trailer": [101, 0, 0, 0, 0, 0, 0], "records": [[[5, -1, 7, 8]], [[1, 2, 3], [4, -5, 6, 7]]]}]})
         for rep in range(ctx.pick(1, 3)):
             for rows, lay, neg in _boundary_layouts():
                 single = rng.random() < 0.5
@@ -1507,15 +2462,27 @@ def search(ctx, hints):
                 if ntime >= 2:
                     break
                 continue
+            if r is not None and len(r) > 3 and r[3] == _UINT_FINDING:
+                if not ctx.extra.get("uint_finding_reported"):
+                    ctx.extra["uint_finding_reported"] = True
+                    c = _shrink(ctx, sc, case)
+                    r2 = _oracle_case(ctx, sc, c) or r
+                    ctx.fail(_UINT_FINDING, "rdop2record(form='uint') in a file with 64-bit keys raises OverflowError below _rowsCutoff for a key "
+                             "with its top bit set (signed struct format '%dq'), and returns the unsigned values from the cut-off on",
+                             _jsonable_case(c), r2[1], r2[2])
+                ctx.count("oracle:uint-i64-finding-seen")
+                continue
             if r is not None:
                 c = _shrink(ctx, sc, case)
                 r2 = _oracle_case(ctx, sc, c) or r
-                ctx.fail(_family(c, r2[0]), "file encoded from the format (independent Python encoder) is not read back: " + r2[0],
+                fam = r2[3] if len(r2) > 3 and r2[3] else _family(c, r2[0])
+                ctx.fail(fam, "file encoded from the format (independent Python encoder) is not read back: " + r2[0],
                          _jsonable_case(c), r2[1], r2[2])
                 nfail += 1
                 if nfail > 25:
                     break
         _sample_files(ctx)
+        _oracle_ascii(ctx, sc)
     finally:
         sc.close()
 
@@ -1555,6 +2522,7 @@ def replay(ctx, data):
         r = _oracle_case(ctx, sc, case)
         if r is None:
             return None
-        return {"family": _family(case, r[0]), "what": r[0], "input": inp, "observed": r[1], "required": r[2]}
+        fam = r[3] if len(r) > 3 and r[3] else _family(case, r[0])
+        return {"family": fam, "what": r[0], "input": inp, "observed": r[1], "required": r[2]}
     finally:
         sc.close()
